@@ -550,6 +550,8 @@ def c17(tier):
 
 @check("C19")
 def c19(tier):
+    if not os.path.exists(os.path.join(echecks2.PROBE_DIR, "p255")):
+        echecks2.build_probes()  # normally done by `./check setup`
     return modee.enum_check(
         "C19", tier, ["c19_launch"],
         "cases: job specifications = commands of <=3 tokens over a 23-token quoting/special-character alphabet (quotes, escapes, $VAR, braces, globs, shell operators, non-ASCII) with blank and blank-tab-blank separators (3-token commands: blank only in quick), "
